@@ -396,7 +396,14 @@ func checkHeadered(c *fw.Ctx) {
 	keys := setOf("_event_id", "_room_version")
 	if fn := mustFunc(c, rule, "NewEventFromHeaderedJSON"); fn != nil {
 		del, nonConst := constStringArgs(fn, fw.NameIs("github.com/tidwall/sjson.DeleteBytes"), 1)
-		c.Check(nonConst == 0 && sameSet(del, keys), rule, "NewEventFromHeaderedJSON strips exactly {_event_id, _room_version}", c.P.Pos(fn.Pos()), "", "strips "+strings.Join(sortedSet(del), ","))
+		switch {
+		case nonConst == 0 && sameSet(del, keys):
+			c.Ok(rule, "NewEventFromHeaderedJSON strips exactly {_event_id, _room_version}", c.P.Pos(fn.Pos()), "")
+		case nonConst > 0 || len(del) == 0:
+			c.Undecided(rule, "NewEventFromHeaderedJSON strips exactly {_event_id, _room_version}", fmt.Sprintf("the stripped names were not all resolved to constants (%d constant, %d not)", len(del), nonConst))
+		default:
+			c.Fail(rule, "NewEventFromHeaderedJSON strips exactly {_event_id, _room_version}", c.P.Pos(fn.Pos()), "strips "+strings.Join(sortedSet(del), ","))
+		}
 		construct := "NewEventFromHeaderedJSON passes the embedded id, the stripped body and the redacted flag on"
 		calls := fw.CallsTo(fn, false, func(n string) bool { return strings.HasSuffix(n, ".NewEventFromTrustedJSONWithEventID") })
 		if len(calls) == 0 {
